@@ -457,6 +457,18 @@ def p_solo_fixed(thorough=False, timeout=150):
     return obs
 
 
+def p_ff_join(thorough=False, H=10, timeout=150):
+    """A finish-constrained (FF / SF) successor that runs out of work while its predecessor is still being worked on, and a second worker
+    for the successor who only becomes available later (two personal absence steps)."""
+    obs = []
+    for k in (2, 3):
+        ws = [{"skills": {"0": 1}}, {"skills": {"1": 1}}, {"skills": {"1": "$s21"}, "abs": ["$a2", "$a2b"]}]
+        spec = {"tasks": [{"w": "$w0"}, {"w": "$w1"}], "edges": [[0, 1, k]], "teams": [_team(ws, [0, 1])], "run": {"max_time": H}}
+        obs.append({"name": "ffjoin/k=%s" % KN[k], "harness": "sim", "cube": {"spec": spec},
+                    "params": [["w0", 1, 5 if thorough else 4], ["w1", 1, 3 if thorough else 2], ["s21", 0, 2], ["a2", -1, 3], ["a2b", -1, 3]], "timeout": timeout})
+    return obs
+
+
 def p_maxtime(thorough=False, timeout=150):
     """C05 (a)/(b): symbolic max_time (including 0 and values below the makespan)."""
     obs = []
@@ -647,6 +659,8 @@ def _obligations_for(prop, tier):
             ed = [ob for ob in p_contention(thorough, H=12 if thorough else 8, timeout=900 if thorough else 150)
                   if "/rule=0/" in ob["name"] and "solo=None" in ob["name"] and "fix=None" in ob["name"] and ("/indep/" in ob["name"] or "/fork/" in ob["name"] or thorough)]
             obs += with_history(ed, "edited-model", 2)
+        if prop in ("C06", "C02"):
+            obs += p_ff_join(thorough, H=12 if thorough else 10, timeout=900 if thorough else 150)
         if prop == "C06":
             obs += p_auto_in_workplace(thorough, H=12 if thorough else 8, timeout=900 if thorough else 150)
             obs += p_absence(wmax=3 if thorough else 2, H=12 if thorough else 8, timeout=900 if thorough else 200, kinds=(0, 2) if not thorough else (0, 1, 2, 3))
